@@ -31,13 +31,13 @@ theorem build_perm_invariant (H : String → String) (sde : Option String) (p : 
   unfold buildWheel
   have h1 : copyModuleOps p.root (selectWheel rules tree') = copyModuleOps p.root (selectWheel rules tree) := by
     unfold copyModuleOps
-    rw [sortBy_root, sortBy_root]
+    rw [if_pos gen_sorted.1, if_pos gen_sorted.1, sortBy_root, sortBy_root]
     have ndt' : (tree'.map (·.rel)).Nodup := (ht.map _).nodup_iff.2 ndt
     have hp : (selectWheel rules tree').Perm (selectWheel rules tree) := List.Perm.filterMap _ ht
     rw [sortBy_perm _ _ _ hp (selectWheel_inj rules tree' ndt')]
   have h2 : copyDistInfoOps p.diSource p.distInfo di' = copyDistInfoOps p.diSource p.distInfo p.diFiles := by
     unfold copyDistInfoOps
-    rw [sortBy_root, sortBy_root]
+    rw [if_pos gen_sorted.2.1, if_pos gen_sorted.2.1, sortBy_root, sortBy_root]
     have ndd' : (di'.map (·.rel)).Nodup := (hd.map _).nodup_iff.2 ndd
     rw [sortBy_perm _ _ _ hd (inj_of_nodup_map _ _ ndd')]
   simp only [wheelOps, h1, h2]
